@@ -689,6 +689,29 @@ func c19KindMatrix() []string {
 	return out
 }
 
+// the member names of the encoded tree: a decoder that tells kinds or clauses apart by looking for these
+// strings must not be confused by a NAME or VALUE of the document that spells one of them
+var c19KeyNames = []string{"Alias", "TypeCondition", "Name", "Arguments", "Directives", "SelectionSet", "Kind", "Raw", "Children", "Value",
+	"Definition", "ObjectDefinition", "Position", "Comment", "Operation", "Operations", "Fragments", "Variable", "VariableDefinitions", "VariableDefinition",
+	"Type", "NamedType", "Elem", "NonNull", "DefaultValue", "ExpectedType", "Used", "Location", "ParentDefinition", "Start", "End", "Line", "Column", "Src"}
+
+// every member name in every name and value position of a small document
+func c19KeyNameDocs() []string {
+	var out []string
+	for _, k := range c19KeyNames {
+		out = append(out,
+			"{ a ..."+k+" b } fragment "+k+" on T { x }",
+			"{ ..."+k+" } fragment "+k+" on "+k+" { "+k+" }",
+			"{ a ... on "+k+" { x } ..."+k+" ... { y } }",
+			"{ ... on "+k+" @"+k+" { ..."+k+" } }",
+			"{ "+k+": "+k+"("+k+": "+k+") @"+k+"("+k+": \""+k+"\") { "+k+" } }",
+			"query "+k+"($"+k+": "+k+" = "+k+") { x: "+k+"(a: $"+k+", b: [\""+k+"\", {"+k+": \"\"\""+k+"\"\"\"}]) }",
+			"subscription { ..."+k+" @skip(if: $"+k+") } mutation "+k+" { ... @"+k+" { ..."+k+" } }",
+		)
+	}
+	return out
+}
+
 // a random selection tree with all three kinds at every level down to the given depth
 type c19Tree struct {
 	r  *rng.R
@@ -696,6 +719,9 @@ type c19Tree struct {
 }
 
 func (g *c19Tree) name() string {
+	if g.r.Chance(1, 8) {
+		return rng.Pick(g.r, c19KeyNames)
+	}
 	return rng.Pick(g.r, []string{"a", "b", "c", "id", "x1", "_y", "on", "fragment", "query", "true", "null", "T", "Node"})
 }
 
@@ -839,6 +865,7 @@ func checkC19(c *Ctx) {
 	s.batch(c19Minimal)
 	matrix := c19KindMatrix()
 	s.batch(matrix)
+	s.batch(c19KeyNameDocs())
 	corpus := len(qs) + len(c19Minimal)
 	total := c.Pick(6000, 120000)
 	if v := os.Getenv("VERIF_C19_DOCS"); v != "" {
